@@ -470,6 +470,11 @@ func (x *fnCtx) applyLockClauses(st *State, fr *Frame, in ssa.Instruction, con *
 		case "releases":
 			l := x.evalSpec(env, cl.Expr)
 			x.lockOp(st, fr, in, l, "Unlock")
+		case "locks":
+			// the callee takes (and gives back) this lock internally: the caller must not hold it -
+			// not even for reading: a writer queued between the two read locks blocks both for ever
+			l := x.evalSpec(env, cl.Expr)
+			x.addVC(st, short, "lock", x.ord(fr, in), fmt.Sprintf("%s.locks%d", con.Func, cl.Ord), Eq(Select(lockArr(st.heap), l.L[0]), IntLit(0)), "callee "+con.Func+" locks a mutex this goroutine may already hold (self-deadlock): "+cl.Text, x.eng.posStr(in.Pos()))
 		}
 	}
 }
